@@ -144,7 +144,7 @@ def run(ctx: Ctx, rep: Report, tier: str) -> None:  # noqa: C901
     # ---------------------------------------------------------------- R09.4 selection exhaustiveness
     rep.rule("R09.4")
     sel = selection_table(ctx, rep)
-    rep.instance(len(sel))
+    rep.instance(rep.rule_counts["R09.4"]["obligations"])
     rep.floor(12, "platform x protocol x version selections")
     penv = folder.module_env(ctx.prog.module("port_name"))
     defined = {k for k, v in penv.items() if isinstance(v, dict) and "_NAME_PORT__" in k}
@@ -456,8 +456,8 @@ def _check_inverse_pairing(ctx: Ctx, rep: Report, swap_fn: Func) -> None:
     param = swap_fn.params[0] if swap_fn.params else None
     ok = False
     for n in own_nodes(swap_fn.node):
-        if isinstance(n, ast.For) and isinstance(n.iter, ast.Call) and isinstance(n.iter.func, ast.Attribute) and n.iter.func.attr == "items":
-            if isinstance(n.iter.func.value, ast.Name) and n.iter.func.value.id == param and isinstance(n.target, ast.Tuple) and len(n.target.elts) == 2:
+        if isinstance(n, ast.For) and _iterates_items_of(n.iter, param):
+            if isinstance(n.target, ast.Tuple) and len(n.target.elts) == 2:
                 k, v = (src(e) for e in n.target.elts)
                 for st in ast.walk(n):
                     if isinstance(st, ast.Assign) and isinstance(st.targets[0], ast.Subscript):
@@ -465,7 +465,7 @@ def _check_inverse_pairing(ctx: Ctx, rep: Report, swap_fn: Func) -> None:
                             ok = True
         if isinstance(n, ast.DictComp) and len(n.generators) == 1:
             g = n.generators[0]
-            if isinstance(g.iter, ast.Call) and isinstance(g.iter.func, ast.Attribute) and g.iter.func.attr == "items" and isinstance(g.target, ast.Tuple) and len(g.target.elts) == 2:
+            if _iterates_items_of(g.iter, param) and isinstance(g.target, ast.Tuple) and len(g.target.elts) == 2:
                 k, v = (src(e) for e in g.target.elts)
                 if src(n.key) == v and src(n.value) == k:
                     ok = True
@@ -474,6 +474,19 @@ def _check_inverse_pairing(ctx: Ctx, rep: Report, swap_fn: Func) -> None:
         rep.ok(swap_fn.qualname, "stores data[number] = name for (name, number) in table.items(): every rendered name is a key of the same table with that number", where=where(swap_fn))
     else:
         rep.violation(swap_fn.qualname, "inverse map construction", "the number->name map is not built from (name, number) pairs of the table", where(swap_fn))
+
+
+def _iterates_items_of(it: ast.AST, param) -> bool:
+    """`param.items()` possibly wrapped in order-only adaptors (list, reversed, sorted, tuple)."""
+    while isinstance(it, ast.Call) and isinstance(it.func, ast.Name) and it.func.id in ("list", "reversed", "sorted", "tuple") and len(it.args) == 1:
+        it = it.args[0]
+    return (
+        isinstance(it, ast.Call)
+        and isinstance(it.func, ast.Attribute)
+        and it.func.attr == "items"
+        and isinstance(it.func.value, ast.Name)
+        and it.func.value.id == param
+    )
 
 
 SWITCH_ATTRS = {"_port_nr": "port_nr", "_protocol_nr": "protocol_nr", "_has_port": "has_port"}
